@@ -119,6 +119,17 @@ func (r *EntRepository) UpdateById(
 	}
 	param = param.Normalize()
 
+	if param.WorkId.IsNone() && param.Param.IsNone() && param.Priority.IsNone() &&
+		param.ScheduledAt.IsNone() && param.Deadline.IsNone() && param.Meta.IsNone() {
+		// Nothing to set: no UPDATE statement would be issued,
+		// so the state guard has to be evaluated here.
+		t, err := r.GetById(ctx, id)
+		if err != nil {
+			return err
+		}
+		return def.ErrKindUpdate(t)
+	}
+
 	builder := r.client.Task.UpdateOneID(id).Where(task.StateEQ(task.DefaultState))
 	if param.WorkId.IsSome() {
 		builder = builder.SetWorkID(param.WorkId.Value())
